@@ -329,17 +329,15 @@ theorem annAssign_order (ρ : Expr → Bool) (cx : Ctx) (hn : cx.nsp.kind = .mod
       simp only [Tgt.toExpr, assignAuto] at h
       simp at h
 
-theorem tr_augAssignExpr (ρ : Expr → Bool) (x : String) (op : BinOpK) (v : Nat) (fb : Expr)
-    (hfb : tr ρ fb = [v]) : tr ρ (augAssignExpr (.name x) op (P v) fb) = [v] := by
+theorem tr_augAssignExpr (ρ : Expr → Bool) (t : Expr) (op : BinOpK) (v : Nat) :
+    tr ρ (augAssignExpr t op (P v)) = tr ρ t ++ [v] := by
   unfold augAssignExpr
-  have h1 : ∀ y, Expr.attribute (.name x) (augOpName op) = .name y → y ≠ probeName := by intro y hy; cases hy
-  simp only [tr, tr_name_call ρ "hasattr" _ (by decide), trL, tr_str, tr_call ρ _ _ _ h1, trK, tr_P, hfb, List.nil_append,
-    List.append_nil]
-  split <;> rfl
+  rw [tr_call ρ _ _ _ (by intro y hy; cases hy)]
+  simp [tr, tr_name_call ρ "__import__" _ (by decide), trL, tr_str, trK, tr_P]
 
 /-- **Augmented assignment** (all 13 operators): a name evaluates the operand once; an attribute
     target its object, then the operand; a subscript target its object, its index, then the operand -
-    each exactly once, whichever of the in-place / fallback branches runs. -/
+    each exactly once. -/
 theorem augAssign_name_order (ρ : Expr → Bool) (cx : Ctx) (hn : cx.nsp.kind = .module) (x : String) (op : BinOpK)
     (v : Nat) (st : St) (es : List Expr) (st' : St)
     (h : lowerStmt cx (.augAssign (.name x) op (P v)) st = .ok (es, st')) : trL ρ es = [v] := by
@@ -352,7 +350,8 @@ theorem augAssign_name_order (ρ : Expr → Bool) (cx : Ctx) (hn : cx.nsp.kind =
   cases ok_ok hr
   cases pure_ok h
   simp only [trL, tr, List.append_nil]
-  exact tr_augAssignExpr ρ x op v _ (by simp [tr, tr_P])
+  rw [tr_augAssignExpr]
+  simp [tr]
 
 theorem augAssign_attr_order (ρ : Expr → Bool) (cx : Ctx) (hn : cx.nsp.kind = .module) (o : Nat) (a : String)
     (op : BinOpK) (v : Nat) (st : St) (es : List Expr) (st' : St)
@@ -364,8 +363,8 @@ theorem augAssign_attr_order (ρ : Expr → Bool) (cx : Ctx) (hn : cx.nsp.kind =
   cases ok_ok hp
   cases pure_ok h
   simp only [trL, tr, tr_P, tr_name_call ρ "setattr" _ (by decide), tr_str, List.append_nil, List.nil_append]
-  rw [tr_augAssignExpr ρ _ op v _ (by simp [tr, tr_P])]
-  rfl
+  rw [tr_augAssignExpr]
+  simp [tr, trK]
 
 theorem augAssign_sub_order (ρ : Expr → Bool) (cx : Ctx) (hn : cx.nsp.kind = .module) (o i : Nat)
     (op : BinOpK) (v : Nat) (st : St) (es : List Expr) (st' : St)
@@ -380,8 +379,8 @@ theorem augAssign_sub_order (ρ : Expr → Bool) (cx : Ctx) (hn : cx.nsp.kind = 
   cases pure_ok h
   have h1 : ∀ (x : String) y, Expr.attribute (.name x) "__setitem__" = .name y → y ≠ probeName := by intro x y hy; cases hy
   simp only [trL, tr, tr_P, tr_call ρ _ _ _ (h1 _), trK, List.append_nil, List.nil_append]
-  rw [tr_augAssignExpr ρ _ op v _ (by simp [tr, tr_P])]
-  simp [convertIndex, P, tr, probeName]
+  rw [tr_augAssignExpr]
+  simp [convertIndex, P, tr, trK, probeName]
 
 /-- an expression statement evaluates its expression, once -/
 theorem expr_order (ρ : Expr → Bool) (cx : Ctx) (hn : cx.nsp.kind = .module) (v : Nat) (st : St)
